@@ -225,6 +225,13 @@ class PrintExec(ME.MiniExec):
             raise F.AnalysisBroken('member of `%s` not modelled' % F.src(e['c'][0])[:60])
         if k == 'CallExpr':
             c = e.get('callee')
+            if not c:
+                c0 = F.strip(e['c'][0])
+                while c0['k'] in ('ParenExpr',) or (c0['k'] == 'UnaryOperator' and c0.get('op') == '*'):
+                    c0 = F.strip(c0['c'][0])
+                fv = env.get(c0['n']) if c0['k'] == 'DeclRefExpr' else None
+                if isinstance(fv, tuple) and len(fv) == 2 and fv[0] == 'func':
+                    c = fv[1]
             if c in self.accessors:
                 return self.accessors[c](F.call_args(e), env, self)
             if c in self.tu.funcs and self.tu.funcs[c].body is not None and self.depth < 3:
@@ -242,6 +249,9 @@ class PrintExec(ME.MiniExec):
         env2 = {}
         for p_, a in zip(g.params, args):
             a0 = F.strip(a)
+            if a0['k'] == 'DeclRefExpr' and a0.get('dk') == 'func':
+                env2[p_['n']] = ('func', a0['n'])    # a function passed by name: calls through the parameter are dispatched
+                continue
             try:
                 v = self.val(a, env)
             except F.AnalysisBroken:
